@@ -93,7 +93,10 @@ Inductive fault :=
 | FRecFresh (frames depth : N)
       (* recursion of the given depth through a list method that runs the closure on a fresh storage
          (funcGen.NewEmptyStack in Map/Accept/multiUse): the guard never sees more than one level *)
-| FRecThrough (m : str) (slots frames depth : N).
+| FRecThrough (m : str) (slots frames depth : N)
+| FRecMixed (m : str) (between slots frames depth : N).
+      (* recursion of the given depth in which [between] directly recursive levels lie between two hops
+         through method m: if m forgets the depth of its callers the guard only ever counts one segment *)
       (* recursion of the given depth whose recursive call sits in the closure handed to method m (as
          "list.cross", "map.map", "static.bisection"): whether the guard counts the levels depends on
          whether m runs the closure in a frame of the caller's storage or on a fresh one *)
@@ -118,7 +121,31 @@ Definition fault_raw (S : sites) (D : N) (f : fault) : raw :=
       else if slots =? 0 then unguarded
       else if depth <=? (guard_limit + 1) / slots then unguarded      (* ends before the guard can fire *)
       else rec_shared_raw D 0 slots frames
+  | FRecMixed m between slots frames depth =>
+      let unguarded := if D <? frames * depth then RFatal else RVal in
+      if slots =? 0 then unguarded
+      else if depth <=? (guard_limit + 1) / slots then unguarded
+      else if mem_str m (s_fresh S) then
+        (* every hop starts a storage at depth 0: the guard sees at most one segment of direct levels *)
+        (if (between + 1) * slots <=? guard_limit then unguarded else rec_shared_raw D 0 slots frames)
+      else rec_shared_raw D 0 slots frames
   end.
+
+(* ---------- depth bookkeeping of funcGen.Stack ---------- *)
+
+(* Stack{storage, offs, size, base}: [base] = slots the callers use on other storages *)
+Record stk := { k_base : N; k_offs : N; k_size : N }.
+Definition stk_depth (s : stk) : N := k_base s + k_offs s + k_size s.
+Definition stk_empty : stk := {| k_base := 0; k_offs := 0; k_size := 0 |}.                       (* NewEmptyStack *)
+Definition stk_below (p : stk) : stk := {| k_base := stk_depth p; k_offs := 0; k_size := 0 |}.   (* NewEmptyStackBelow *)
+Definition stk_frame (s : stk) (n : N) : stk :=                                                 (* CreateFrame n *)
+  {| k_base := k_base s; k_offs := k_offs s + k_size s - n; k_size := n |}.
+(* Push on a storage holding [len] values: stackStorage.set(offs+size, v, base) *)
+Definition stk_push (s : stk) (len : N) : option (stk * N) :=
+  let n := k_offs s + k_size s in
+  if n =? len then (if guard_limit <? k_base s + n then None else Some ({| k_base := k_base s; k_offs := k_offs s; k_size := k_size s + 1 |}, len + 1))
+  else if n <? len then Some ({| k_base := k_base s; k_offs := k_offs s; k_size := k_size s + 1 |}, len)
+  else None.
 
 (* ---------- programs: a fault source inside a tree of contexts ---------- *)
 
